@@ -1,0 +1,10 @@
+//go:build verif
+
+package common
+
+// Contracts for the hvc verifier (/verif). Comment-only.
+
+//@ func DecodeUTF16(b []byte) (s string)
+//@   pure
+//@ func StripNull(s string) (r string)
+//@   pure
